@@ -175,7 +175,28 @@ Fixpoint exec (h : heap Z) (cs : list cmd) : list Z :=
 
 Definition c07_run (a : list Z) : list Z := exec [] (dec_cmds (S (List.length a)) a).
 
+(* ByteVec(bytes d)[start:stop] = bytes x
+   [has_start; start; has_stop; stop; n; d1..dn; m; x1..xm] -> [raised; len; bytes...] *)
+Definition c07_setitem (a : list Z) : list Z :=
+  match a with
+  | hs :: s :: he :: e :: n :: r =>
+      let d := firstn (zn n) r in
+      match skipn (zn n) r with
+      | m :: r2 =>
+          let x := firstn (zn m) r2 in
+          let v := append (@empty Z) (wrap false d) in
+          let os := if hs =? 1 then Some (zn s) else None in
+          let oe := if he =? 1 then Some (zn e) else None in
+          match setitem_slice Z 0 v os oe (wrap false x) with
+          | Some v' => [0; nz (blen v')] ++ flat v'
+          | None => [1; nz (blen v)] ++ flat v
+          end
+      | [] => []
+      end
+  | _ => []
+  end.
+
 Definition table : list (string * (list Z -> list Z)) :=
-  [ ("c07_run"%string, c07_run) ].
+  [ ("c07_run"%string, c07_run); ("c07_setitem"%string, c07_setitem) ].
 
 Extraction "_build/C07/entries.ml" table.
